@@ -1,5 +1,6 @@
 """C20 — pixel coordinates behave as broadcast (x, y) arrays under every operation."""
 import itertools
+import json
 import math
 import warnings
 from fractions import Fraction
@@ -140,6 +141,11 @@ def mk_key(key, bare):
 
 
 NONFIN = ('nan', 'inf', '-inf')
+
+
+def json_copy(x):
+    import json as _j
+    return _j.loads(_j.dumps(x))
 
 
 def canon_vals(v):
@@ -300,7 +306,10 @@ class Check(PropertyCheck):
             'with small, half-range (squares wrap, sums do not) and full-range values, and float64 at binary exponents +-400..600; rotations about scalar and array centres by angles of '
             'any sign/magnitude in deg/rad/arcmin/arcsec/hourangle (Angle and Quantity) and by exact Pythagorean unit vectors, '
             'twice / by the sum / back; real astropy WCS (TAN/SIN/CAR/ZEA/STG, RA-DEC and GLON-GLAT, rotated PC, both parities, '
-            'scales 1e-5..0.1 deg) x origin {0,1} x mode {all,wcs}. Non-trivial = the constructor succeeded on a non-empty coordinate.')
+            'scales 1e-5..0.1 deg) x origin {0,1} x mode {all,wcs}; histories: the SAME PixCoord object through 3-8 calls of '
+            'to_sky with varying (wcs object, origin, mode), from_sky of the last result in another convention, in-place edits of an '
+            'element of pc.x / pc.y, separation / rotate twice with the same argument objects - every call compared with the '
+            'answer for that call on the current values, receiver and arguments unchanged. Non-trivial = the constructor succeeded on a non-empty coordinate.')
     assumptions = [
         'numpy broadcasting (shape rule and broadcast values) is the standard right-aligned rule stated in Impl/PixCoord.lean '
         '(NP.bshape, NP.broadcastTo); it is a parameter of the model, exercised against real numpy by the correspondence run',
@@ -656,12 +665,340 @@ class Check(PropertyCheck):
                 p[k]['data'] = [frac((Fraction(v) + c0) if dt == 'float' else Fraction(int(Fraction(v)) + round(c0)))
                                 for v in p[k]['data']]
             cases.append({'kind': 'sky', 'p': p, 'wcs': w, 'origin': rng.choice([0, 1]), 'mode': rng.choice(['all', 'wcs'])})
+        # ---- histories: the same object through several calls
+        for _ in range(400 if quick else 8000):
+            cases.append(self._hist_gen(rng, shapes))
         return cases
+
+
+    # ================================================================ history cases
+    # One PixCoord object goes through a sequence of calls: to_sky with varying (wcs, origin, mode), from_sky of the
+    # last sky result with another convention, in-place edits of an element of pc.x / pc.y, separation and rotate
+    # called twice.  Every call is compared with the model's answer for THAT call on the coordinate's CURRENT values,
+    # and the receiver must be unchanged by every call that is not an edit.
+    def _hist_gen(self, rng, shapes):
+        s = rng.choice([[], [3], [2, 3], [1], [2, 2], [4]]) if rng.random() < 0.8 else self._shape(rng)
+        w0 = self._wcs(rng)
+        w1 = json_copy(w0)
+        r = rng.random()
+        if r < 0.4:
+            w1['cdelt'] = [frac(Fraction(w0['cdelt'][0]) * 2), frac(Fraction(w0['cdelt'][1]) * 2)]
+        elif r < 0.6:
+            w1['pc'] = [w0['pc'][1], w0['pc'][0]] if rng.random() < 0.5 else w0['pc']
+            w1['cdelt'] = [w0['cdelt'][0], frac(-Fraction(w0['cdelt'][1]))]
+        # (otherwise: the same parameters in a distinct WCS object)
+        broadcast = rng.random() < 0.3
+        p = self._coord_of_shape(rng, s, 'float' if rng.random() < 0.8 else None) if broadcast else \
+            {'x': self._arr(rng, s, 'float' if rng.random() < 0.8 else 'int'), 'y': self._arr(rng, s, 'float')}
+        for k, j in (('x', 0), ('y', 1)):
+            c0 = Fraction(w0['crpix'][j])
+            dt = p[k]['dtype']
+            p[k]['data'] = [frac((Fraction(v) + c0) if dt == 'float' else Fraction(int(Fraction(v)) + round(c0))) for v in p[k]['data']]
+            if p[k]['shape'] and not broadcast:
+                p[k]['form'] = 'ndarray'
+        editable = (not broadcast) and s != [] and prod(s) > 0
+        steps = []
+        for _ in range(rng.randint(3, 8)):
+            r = rng.random()
+            if r < 0.5 or not steps:
+                steps.append({'op': 'to_sky', 'wcs': rng.choice([0, 0, 0, 1]), 'origin': rng.choice([0, 1]), 'mode': rng.choice(['all', 'wcs'])})
+            elif r < 0.62 and any(st['op'] == 'to_sky' for st in steps):
+                steps.append({'op': 'from_sky', 'wcs': rng.choice([0, 0, 1]), 'origin': rng.choice([0, 1]), 'mode': rng.choice(['all', 'wcs'])})
+            elif r < 0.8 and editable:
+                k = rng.choice(['x', 'y'])
+                c0 = Fraction(w0['crpix'][0 if k == 'x' else 1])
+                v = Fraction(rng.randint(-400, 400), 8) + c0 if p[k]['dtype'] == 'float' else Fraction(rng.randint(-50, 50) + round(c0))
+                steps.append({'op': 'edit', 'attr': k, 'idx': rng.randrange(prod(s)), 'val': frac(v)})
+            elif r < 0.9:
+                o = self._coord_of_shape(rng, rng.choice([s, []]), 'float')
+                st = {'op': 'sep', 'o': o}
+                steps += [st, json_copy(st)]
+            else:
+                st = {'op': 'rotate', 'center': self._coord_of_shape(rng, [], 'float'), 'a': self._angle(rng)}
+                steps += [st, json_copy(st)]
+        return {'kind': 'history', 'p': p, 'wcss': [w0, w1], 'steps': steps}
+
+    @staticmethod
+    def _hist_state0(case):
+        c = case['p']
+        S = py_bshape(c['x']['shape'], c['y']['shape'])
+        return {'shape': S, 'x': py_bvalues(c['x']['shape'], [Fraction(v) for v in c['x']['data']], S),
+                'y': py_bvalues(c['y']['shape'], [Fraction(v) for v in c['y']['data']], S)}
+
+    @staticmethod
+    def _hist_coord(st):
+        return {'x': {'shape': st['shape'], 'data': [frac(v) for v in st['x']]},
+                'y': {'shape': st['shape'], 'data': [frac(v) for v in st['y']]}}
+
+    def _hist_walk(self, case):
+        """(step, state before the step as exact values, the to_sky step whose result is the 'last sky' or None)."""
+        st = self._hist_state0(case)
+        last = None
+        out = []
+        for step in case['steps']:
+            cur = {'shape': st['shape'], 'x': list(st['x']), 'y': list(st['y'])}
+            if step['op'] == 'edit':
+                cur[step['attr']][step['idx']] = Fraction(step['val'])
+                st = cur
+            out.append((step, cur, last))
+            if step['op'] == 'to_sky':
+                last = (step, cur)
+        return out
+
+    @staticmethod
+    def _sky_eval(w, mode, origin, xs, ys):
+        """the WCS parameter of the model, evaluated by real wcslib on FITS (1-based) pixels."""
+        wcs = mk_wcs(w)
+        fx = np.array([float(v + (1 - origin)) for v in xs], dtype=float)
+        fy = np.array([float(v + (1 - origin)) for v in ys], dtype=float)
+        lon, lat = (wcs.all_pix2world if mode == 'all' else wcs.wcs_pix2world)(fx, fy, 1)
+        return fx, fy, np.atleast_1d(lon), np.atleast_1d(lat)
+
+    @staticmethod
+    def _pix_eval(w, mode, lon, lat):
+        wcs = mk_wcs(w)
+        bx, by = (wcs.all_world2pix if mode == 'all' else wcs.wcs_world2pix)(np.asarray(lon, float), np.asarray(lat, float), 1)
+        return [frac(v) for v in np.atleast_1d(bx)], [frac(v) for v in np.atleast_1d(by)]
+
+    def _hist_real(self, case):
+        from regions import PixCoord
+        p = attempt(lambda: mk_coord(case['p']))
+        if is_err(p):
+            return {'ctor': p}
+        wcss = [mk_wcs(w) for w in case['wcss']]
+        others = {}
+        last = None
+        res = []
+        for i, step in enumerate(case['steps']):
+            op = step['op']
+            r = {}
+            if op == 'to_sky':
+                sky = attempt(lambda: p.to_sky(wcss[step['wcs']], origin=step['origin'], mode=step['mode']))
+                if is_err(sky):
+                    r['sky'] = sky
+                else:
+                    last = sky
+                    r['sky'] = [list(sky.shape), canon_vals(sky.data.lon.deg), canon_vals(sky.data.lat.deg), bool(sky.isscalar)]
+                    b = attempt(lambda: PixCoord.from_sky(sky, wcss[step['wcs']], origin=step['origin'], mode=step['mode']))
+                    r['back'] = b if is_err(b) else canon_pc(b)
+            elif op == 'from_sky':
+                b = attempt(lambda: PixCoord.from_sky(last, wcss[step['wcs']], origin=step['origin'], mode=step['mode']))
+                r['res'] = b if is_err(b) else canon_pc(b)
+            elif op == 'edit':
+                def ed():
+                    a = getattr(p, step['attr'])
+                    v = Fraction(step['val'])
+                    a[np.unravel_index(step['idx'], a.shape)] = int(v) if a.dtype.kind in 'iu' else float(v)
+                    return True
+                e = attempt(ed)
+                if is_err(e):
+                    r['edit'] = e
+            elif op == 'sep':
+                key = json.dumps(step['o'], sort_keys=True)
+                o = others.setdefault(key, mk_coord(step['o']))        # the SAME other object for the repeated call
+                d = attempt(lambda: p.separation(o))
+                r['d'] = d if is_err(d) else [list(np.shape(d)), canon_vals(d)]
+                r['o_state'] = canon_pc(o)
+            elif op == 'rotate':
+                key = json.dumps(step['center'], sort_keys=True)
+                c = others.setdefault(key, mk_coord(step['center']))
+                ang = mk_angle(step['a'])
+                q = attempt(lambda: p.rotate(c, ang))
+                r['r'] = q if is_err(q) else canon_pc(q)
+                r['o_state'] = canon_pc(c)
+                if not is_err(q) and not p.isscalar and np.size(p.x):
+                    r['aliased'] = bool(np.shares_memory(q.x, p.x) or np.shares_memory(q.y, p.y))
+            r['state'] = canon_pc(p)
+            res.append(r)
+        return {'steps': res}
+
+    def _hist_requests(self, case):
+        reqs = []
+        for step, st, last in self._hist_walk(case):
+            op = step['op']
+            pj = self._hist_coord(st)
+            if op == 'to_sky':
+                w = case['wcss'][step['wcs']]
+                fx, fy, lon, lat = self._sky_eval(w, step['mode'], step['origin'], st['x'], st['y'])
+                bx, by = self._pix_eval(w, step['mode'], lon, lat)
+                reqs.append({'op': 'pc.to_fits', 'p': pj, 'origin': step['origin'], 'all': step['mode'] == 'all'})
+                reqs.append({'op': 'pc.from_fits', 'shape': st['shape'], 'x': bx, 'y': by, 'origin': step['origin'],
+                             'all': step['mode'] == 'all'})
+            elif op == 'from_sky':
+                ls, lst = last
+                _, _, lon, lat = self._sky_eval(case['wcss'][ls['wcs']], ls['mode'], ls['origin'], lst['x'], lst['y'])
+                bx, by = self._pix_eval(case['wcss'][step['wcs']], step['mode'], lon, lat)
+                reqs.append({'op': 'pc.from_fits', 'shape': lst['shape'], 'x': bx, 'y': by, 'origin': step['origin'],
+                             'all': step['mode'] == 'all'})
+            elif op == 'edit':
+                reqs.append(dict(op='pc.ctor', **pj))
+            elif op == 'sep':
+                reqs.append({'op': 'pc.sep2', 'p': pj, 'q': self._jc(step['o'])})
+            elif op == 'rotate':
+                c, s_ = cs_of(mk_angle(step['a']))
+                reqs.append({'op': 'pc.rotate', 'p': pj, 'center': self._jc(step['center']), 'c': frac(c), 's': frac(s_)})
+        return reqs
+
+    def _hist_model(self, case, replies):
+        out = []
+        i = 0
+        for step, st, last in self._hist_walk(case):
+            op = step['op']
+            m = {}
+            if op == 'to_sky':
+                w = case['wcss'][step['wcs']]
+                fx, fy, lon, lat = self._sky_eval(w, step['mode'], step['origin'], st['x'], st['y'])
+                fits = replies[i].get('ok')
+                m['consistent'] = bool(fits) and [int(n) for n in fits['shape']] == st['shape'] and \
+                    [Fraction(v) for v in fits['x']] == [Fraction(float(v)) for v in fx] and \
+                    [Fraction(v) for v in fits['y']] == [Fraction(float(v)) for v in fy]
+                m['lon'], m['lat'] = [float(v) for v in lon], [float(v) for v in lat]
+                m['back'] = dec_reply(replies[i + 1])
+                i += 2
+            elif op == 'from_sky':
+                m['res'] = dec_reply(replies[i]); i += 1
+            elif op == 'edit':
+                m['state'] = dec_reply(replies[i]); i += 1
+            elif op == 'sep':
+                m['d2'] = dec_reply(replies[i], lambda j: [[int(n) for n in j['shape']], j['data']]); i += 1
+            elif op == 'rotate':
+                m['r'] = dec_reply(replies[i]); i += 1
+            out.append(m)
+        return {'steps': out}
+
+    def _hist_equal(self, case, real, model):
+        if 'ctor' in real:
+            return False
+        scale = coord_scale(case['p']) * 4
+        for (step, st, last), r, m in zip(self._hist_walk(case), real['steps'], model['steps']):
+            op = step['op']
+            if op == 'to_sky':
+                if is_err(r.get('sky')) or not m['consistent']:
+                    return False
+                shp, lon, lat, scal = r['sky']
+                if shp != st['shape'] or len(lon) != len(m['lon']):
+                    return False
+                for a, b in zip(lon, m['lon']):
+                    d = abs(float(num(a)) - b) % 360.0
+                    if not (min(d, 360.0 - d) <= 1e-9):
+                        return False
+                for a, b in zip(lat, m['lat']):
+                    if not (abs(float(num(a)) - b) <= 1e-9):
+                        return False
+                if not close_pc(r['back'], m['back'], scale):
+                    return False
+            elif op == 'from_sky':
+                if not close_pc(r['res'], m['res'], scale):
+                    return False
+            elif op == 'edit':
+                if 'edit' in r or not same_pc(r['state'], m['state']):
+                    return False
+            elif op == 'sep':
+                if not self._sep_close(r['d'], m['d2']):
+                    return False
+            elif op == 'rotate':
+                if not close_pc(r['r'], m['r'], scale * coord_scale(step['center'])):
+                    return False
+        return True
+
+    def _hist_oracle(self, case, real):
+        V = []
+        def bad(kind, detail, i):
+            V.append({'kind': kind, 'detail': f'{detail} :: history step {i}: '
+                      f'{ {k: v for k, v in case["steps"][i].items() if k in ("op", "wcs", "origin", "mode", "attr", "idx", "val")} }'
+                      f' after {[s_["op"] + (str(s_.get("origin", "")) + s_.get("mode", "")) for s_ in case["steps"][:i]]}', 'step': i})
+        if 'ctor' in real:
+            if py_bshape(case['p']['x']['shape'], case['p']['y']['shape']) is not None:
+                bad('ctor_raised_on_broadcastable', real['ctor'], 0)
+            return V
+        prev = {}
+        for i, ((step, st, last), r) in enumerate(zip(self._hist_walk(case), real['steps'])):
+            op = step['op']
+            S, X, Y = st['shape'], st['x'], st['y']
+            # the receiver holds exactly the values it should (edits applied, nothing else changed it)
+            rs = r['state']
+            if rs['shape'] != S or [num(v) for v in rs['x']] != X or [num(v) for v in rs['y']] != Y:
+                bad('history_receiver_changed', f"x={rs['x'][:6]} y={rs['y'][:6]} expected x={[frac(v) for v in X[:6]]} y={[frac(v) for v in Y[:6]]}", i)
+                return V
+            if op == 'to_sky':
+                if is_err(r.get('sky')):
+                    bad('to_sky_raised', r['sky'], i)
+                    continue
+                shp, lon, lat, scal = r['sky']
+                if shp != S or scal != (S == []):
+                    bad('to_sky_shape', f'{shp} scalar={scal} for {S}', i)
+                    continue
+                # sky position of THIS call: wcslib on the current values in the FITS convention (x + 1 - origin)
+                _, _, elon, elat = self._sky_eval(case['wcss'][step['wcs']], step['mode'], step['origin'], X, Y)
+                for a, b, c_, d_ in zip(lon, elon, lat, elat):
+                    dl = abs(float(num(a)) - float(b)) % 360.0
+                    if not (min(dl, 360.0 - dl) <= 1e-9 and abs(float(num(c_)) - float(d_)) <= 1e-9):
+                        bad('to_sky_not_the_position_of_this_call', f'({float(num(a))}, {float(num(c_))}) deg, expected ({float(b)}, {float(d_)}) deg '
+                            f'for origin={step["origin"]} mode={step["mode"]} wcs#{step["wcs"]}', i)
+                        break
+                b = r.get('back')
+                if is_err(b):
+                    bad('from_sky_raised', b, i)
+                elif b['shape'] != S or b['scalar'] != (S == []) or \
+                        not all(abs(num(u) - v) <= Fraction(1, 10 ** 6) for u, v in zip(b['x'] + b['y'], X + Y)):
+                    bad('sky_roundtrip_values', f"back x={[float(num(v)) for v in b['x'][:4]]} y={[float(num(v)) for v in b['y'][:4]]} "
+                        f"start x={[float(v) for v in X[:4]]} y={[float(v) for v in Y[:4]]} origin={step['origin']} mode={step['mode']}", i)
+            elif op == 'from_sky':
+                ls, lst = last
+                b = r['res']
+                if is_err(b):
+                    bad('from_sky_raised', b, i)
+                    continue
+                if ls['wcs'] == step['wcs'] or case['wcss'][0] == case['wcss'][1]:
+                    # same WCS: the pixel position in the other origin convention is shifted by the origin difference
+                    sh = step['origin'] - ls['origin']
+                    ex, ey = [v + sh for v in lst['x']], [v + sh for v in lst['y']]
+                    if b['shape'] != lst['shape'] or not all(abs(num(u) - v) <= Fraction(1, 10 ** 6) for u, v in zip(b['x'] + b['y'], ex + ey)):
+                        bad('from_sky_origin_shift', f"x={[float(num(v)) for v in b['x'][:4]]} expected {[float(v) for v in ex[:4]]}", i)
+            elif op == 'edit':
+                if 'edit' in r:
+                    bad('edit_failed', r['edit'], i)
+            elif op == 'sep':
+                d = r['d']
+                so, xo, yo = self._hist_state0({'p': step['o']}).values()
+                SS = py_bshape(S, so)
+                if is_err(d) or d[0] != SS:
+                    bad('separation_raised_or_shape', d if is_err(d) else d[0], i)
+                    continue
+                XX, YY, XO, YO = py_bvalues(S, X, SS), py_bvalues(S, Y, SS), py_bvalues(so, xo, SS), py_bvalues(so, yo, SS)
+                for j, v in enumerate(d[1]):
+                    ex = fsqrt((XO[j] - XX[j]) ** 2 + (YO[j] - YY[j]) ** 2)
+                    if not (abs(float(num(v)) - ex) <= 1e-12 * ex):
+                        bad('separation_not_euclid', f'{v} expected {ex}', i)
+                        break
+                ro = r['o_state']
+                if [num(v) for v in ro['x']] != xo or [num(v) for v in ro['y']] != yo:
+                    bad('history_argument_changed', f"other: x={ro['x'][:4]}", i)
+            elif op == 'rotate':
+                q = r['r']
+                sc, xc, yc = self._hist_state0({'p': step['center']}).values()
+                if is_err(q) or q['shape'] != S:
+                    bad('rotate_raised_or_shape', q if is_err(q) else q['shape'], i)
+                    continue
+                c, s_ = cs_of(mk_angle(step['a']))
+                tol = Fraction(TOL) * coord_scale(case['p']) * coord_scale(step['center']) * 4
+                ex = [xc[0] + (c * (x - xc[0]) - s_ * (y - yc[0])) for x, y in zip(X, Y)]
+                ey = [yc[0] + (s_ * (x - xc[0]) + c * (y - yc[0])) for x, y in zip(X, Y)]
+                if not all(abs(num(u) - v) <= tol for u, v in zip(q['x'] + q['y'], ex + ey)):
+                    bad('rotate_values', f"x={[float(num(v)) for v in q['x'][:4]]} expected {[float(v) for v in ex[:4]]}", i)
+                if r.get('aliased'):
+                    bad('rotate_result_aliases_receiver', '', i)
+                ro = r['o_state']
+                if [num(v) for v in ro['x']] != xc or [num(v) for v in ro['y']] != yc:
+                    bad('history_argument_changed', f"center: x={ro['x'][:4]}", i)
+        return V
 
     # ================================================================ real code
     def real(self, case):
         from regions import PixCoord
         kind = case['kind']
+        if kind == 'history':
+            return self._hist_real(case)
         out = {}
         if kind == 'ctor':
             x, y = mk_arr(case['x']), mk_arr(case['y'])
@@ -827,6 +1164,8 @@ class Check(PropertyCheck):
 
     def requests(self, case):
         k = case['kind']
+        if k == 'history':
+            return self._hist_requests(case)
         if k == 'ctor':
             c = {'x': self._jarr(case['x']), 'y': self._jarr(case['y'])}
             return [dict(op='pc.ctor', **c)] + [{'op': op, 'p': c} for op in ('pc.len', 'pc.iter', 'pc.copy', 'pc.xy')]
@@ -871,6 +1210,8 @@ class Check(PropertyCheck):
             if 'fail' in r:
                 return {'fail': r['fail']}
         k = case['kind']
+        if k == 'history':
+            return self._hist_model(case, replies)
         if k == 'ctor':
             c = dec_reply(replies[0])
             if is_err(c):
@@ -949,6 +1290,8 @@ class Check(PropertyCheck):
     def equal(self, case, real, model):
         if 'fail' in model:
             return False
+        if case['kind'] == 'history':
+            return self._hist_equal(case, real, model)
         if 'ctor' in real and is_err(real['ctor']):
             return 'ctor' in model and is_err(model['ctor']) and model['ctor']['err'] == real['ctor']['err']
         if 'ctor' in model and is_err(model['ctor']):
@@ -1033,6 +1376,8 @@ class Check(PropertyCheck):
     def oracle(self, case, real):
         V = []
         k = case['kind']
+        if k == 'history':
+            return self._hist_oracle(case, real)
 
         def bad(kind, detail, **kw):
             d = {'kind': kind, 'detail': f'{detail} :: {k}'}
@@ -1278,6 +1623,11 @@ class Check(PropertyCheck):
 
     def bucket(self, case, real):
         k = case['kind']
+        if k == 'history':
+            ops = [st['op'] for st in case['steps']]
+            var = len({(st.get('wcs'), st['origin'], st['mode']) for st in case['steps'] if st['op'] == 'to_sky'})
+            return f"history/{'scalar' if not case['p']['x']['shape'] and not case['p']['y']['shape'] else 'array'}/" \
+                   f"{'edit' if 'edit' in ops else 'noedit'}/{min(var, 3)}conv"
         def sclass(c):
             s = py_bshape(c['x']['shape'], c['y']['shape'])
             if s is None:
